@@ -369,173 +369,7 @@ func ruleFilterPredicates(w *core.World, r *core.Report) {
 		})
 		r.Check(bad == "" && trueRet > 0, "RedisKeyFilter.FilterDb/spec", badPos, "%s", bad)
 	}
-	// FilterCmdKey: kept[i] = true only after FilterKey false and FilterSlot false; a rejected key sets filtered
-	if f := fn(w, r, "(*pkg/filter.RedisKeyFilter).FilterCmdKey"); f != nil {
-		isKeyRule := func(name string) func(ssa.Value) bool {
-			return func(v ssa.Value) bool {
-				c, ok := core.Unwrap(v).(*ssa.Call)
-				return ok && core.ResolveCall(c).Name == "(*pkg/filter.RedisKeyFilter)."+name
-			}
-		}
-		// the per-key loop, one iteration at a time (helpers the test is moved into are stepped into)
-		var loopHead *ssa.BasicBlock
-		for _, s := range core.SitesNamed(f, false, "(*pkg/filter.RedisKeyFilter).FilterKey") {
-			at := s.Instr
-			for at.Parent() != f {
-				c := core.ExpandedInto(at.Parent())
-				if c == nil {
-					break
-				}
-				at = c
-			}
-			if at.Parent() == f {
-				loopHead = core.LoopHeadOf(at.Block())
-			}
-		}
-		if loopHead == nil {
-			// the test sits in a helper with several callers: the loop is the one that calls the helper
-			for _, s := range core.Sites(f, false) {
-				if s.Callee != nil && s.Instr.Parent() == f && len(core.SitesNamed(s.Callee, false, "(*pkg/filter.RedisKeyFilter).FilterKey")) > 0 {
-					loopHead = core.LoopHeadOf(s.Instr.Block())
-				}
-			}
-		}
-		isKeepStore := func(in ssa.Instruction) bool {
-			st, ok := in.(*ssa.Store)
-			if !ok {
-				return false
-			}
-			ia, ok := st.Addr.(*ssa.IndexAddr)
-			if !ok {
-				return false
-			}
-			if b, isB := core.ConstBool(st.Val); !isB || !b {
-				return false
-			}
-			ms, isMs := ia.X.(*ssa.MakeSlice)
-			return isMs && strings.HasSuffix(ms.Type().String(), "[]bool")
-		}
-		n := 0
-		keepBad := ""
-		var keepPos token.Pos = f.Pos()
-		type iter struct {
-			p                  *core.Path
-			rejected, accepted bool
-		}
-		var iters []iter
-		if loopHead != nil {
-			core.EnumPathsN(loopHead, 0, 100000, 1, func(p *core.Path) {
-				rej := pathAssumed(p, isKeyRule("FilterKey"), true) || pathAssumed(p, isKeyRule("FilterSlot"), true)
-				acc := pathAssumed(p, isKeyRule("FilterKey"), false) && pathAssumed(p, isKeyRule("FilterSlot"), false)
-				for _, in := range p.Instrs {
-					if isKeepStore(in) {
-						n++
-						if !acc {
-							keepBad, keepPos = "a key is kept without both the prefix rule and the slot rule having accepted it", in.Pos()
-						}
-					}
-				}
-				if p.Closed {
-					iters = append(iters, iter{p, rej, acc})
-				}
-			})
-		}
-		r.Check(keepBad == "" && n > 0, "FilterCmdKey/keep", keepPos, "%s (marking paths=%d)", keepBad, n)
-		// the same key string is given to both rules and comes from args[index]
-		var ka, sa ssa.Value
-		for _, s := range core.Sites(f, false) {
-			if s.Name == "(*pkg/filter.RedisKeyFilter).FilterKey" {
-				ka = s.Args()[0]
-			}
-			if s.Name == "(*pkg/filter.RedisKeyFilter).FilterSlot" {
-				sa = s.Args()[0]
-			}
-		}
-		r.Check(ka != nil && ka == sa, "FilterCmdKey/same-key", f.Pos(), "both key rules must judge the same key")
-		// a rejection is remembered until the loop is over, and the command passes unchanged only when
-		// nothing was rejected. Two forms: a boolean carried round the loop that every rejecting iteration
-		// sets; or a counter that exactly the accepting iterations advance, compared afterwards with the
-		// number of keys.
-		okFlag, seenFlag := false, false
-		why := "no loop-carried flag or counter records a rejection"
-		if loopHead != nil {
-			for _, in := range loopHead.Instrs {
-				ph, ok := in.(*ssa.Phi)
-				if !ok {
-					break
-				}
-				bt, isB := ph.Type().Underlying().(*types.Basic)
-				if !isB {
-					continue
-				}
-				good, nRej, nAcc := true, 0, 0
-				switch {
-				case bt.Kind() == types.Bool:
-					for _, it := range iters {
-						if !it.rejected {
-							continue
-						}
-						nRej++
-						if v, isC := core.ConstBool(it.p.NextIter(ph)); !isC || !v {
-							good = false
-						}
-					}
-					if good && nRej > 0 && unchangedReturnGuarded(f, loopHead, func(c core.Cmp, val bool) bool { return false }, ph) {
-						okFlag, seenFlag = true, true
-					}
-				case bt.Info()&types.IsInteger != 0:
-					init := false
-					for i, e := range ph.Edges {
-						if !loopHead.Dominates(loopHead.Preds[i]) && isConstInt(0)(e) {
-							init = true
-						}
-					}
-					for _, it := range iters {
-						nx := it.p.NextIter(ph)
-						switch {
-						case it.rejected:
-							nRej++
-							if nx != ssa.Value(ph) {
-								good = false
-							}
-						case it.accepted:
-							nAcc++
-							b, isBin := nx.(*ssa.BinOp)
-							if !isBin || b.Op != token.ADD || b.X != ssa.Value(ph) || !isConstInt(1)(b.Y) {
-								good = false
-							}
-						default:
-							good = false
-						}
-					}
-					if os.Getenv("GUNYU_DEBUG") != "" {
-						fmt.Println("DEBUG counter", ph.Name(), "good", good, "init", init, "rej", nRej, "acc", nAcc, "iters", len(iters), "ranged", rangedSlice(loopHead))
-						for _, it := range iters {
-							fmt.Println("   iter rej", it.rejected, "acc", it.accepted, "next", it.p.NextIter(ph))
-						}
-					}
-					if good && init && nRej > 0 && nAcc > 0 {
-						// the loop visits every key: it ranges over a slice, and the counter is compared with its length
-						ranged := rangedSlice(loopHead)
-						if ranged != nil && unchangedReturnGuarded(f, loopHead, func(c core.Cmp, val bool) bool {
-							x, y := core.Unwrap(c.X), core.Unwrap(c.Y)
-							isLen := func(v ssa.Value) bool {
-								call, ok := v.(*ssa.Call)
-								return ok && isBuiltin(call, "len") && call.Call.Args[0] == ranged
-							}
-							return c.Op == token.EQL && ((x == ssa.Value(ph) && isLen(y)) || (y == ssa.Value(ph) && isLen(x)))
-						}, nil) {
-							okFlag, seenFlag = true, true
-						} else {
-							why = "the counter of accepted keys is not compared with the number of keys before the command passes unchanged"
-						}
-					}
-				}
-			}
-		}
-		_ = why
-		r.Check(okFlag && seenFlag, "FilterCmdKey/filtered-flag", f.Pos(), "a rejected key must mark the command as filtered (otherwise the command is forwarded unchanged)")
-	}
+	ruleFilterCmdKeyKeep(w, r)
 }
 
 // ---------------------------------------------------------------- R10.3
@@ -1256,4 +1090,176 @@ func ruleTrieSameAlphabet(w *core.World, r *core.Report) {
 	}
 	same := len(kinds) == 3 && kinds["Insert"] != "" && kinds["Insert"] != "mixed" && kinds["Insert"] == kinds["IsPrefixMatch"] && kinds["Insert"] == kinds["Search"]
 	r.Check(same, "Trie/one-alphabet", pos, "the prefix trie is written and read with different decompositions of the key (%v): what Insert stored is found only for keys on which they agree", kinds)
+}
+
+
+// ruleFilterCmdKeyKeep (part of R10.2; shared with C11: every key the slot rule judges is hashed itself).
+func ruleFilterCmdKeyKeep(w *core.World, r *core.Report) {
+	// FilterCmdKey: kept[i] = true only after FilterKey false and FilterSlot false; a rejected key sets filtered
+	if f := fn(w, r, "(*pkg/filter.RedisKeyFilter).FilterCmdKey"); f != nil {
+		isKeyRule := func(name string) func(ssa.Value) bool {
+			return func(v ssa.Value) bool {
+				c, ok := core.Unwrap(v).(*ssa.Call)
+				return ok && core.ResolveCall(c).Name == "(*pkg/filter.RedisKeyFilter)."+name
+			}
+		}
+		// the per-key loop, one iteration at a time (helpers the test is moved into are stepped into)
+		var loopHead *ssa.BasicBlock
+		for _, s := range core.SitesNamed(f, false, "(*pkg/filter.RedisKeyFilter).FilterKey") {
+			at := s.Instr
+			for at.Parent() != f {
+				c := core.ExpandedInto(at.Parent())
+				if c == nil {
+					break
+				}
+				at = c
+			}
+			if at.Parent() == f {
+				loopHead = core.LoopHeadOf(at.Block())
+			}
+		}
+		if loopHead == nil {
+			// the test sits in a helper with several callers: the loop is the one that calls the helper
+			for _, s := range core.Sites(f, false) {
+				if s.Callee != nil && s.Instr.Parent() == f && len(core.SitesNamed(s.Callee, false, "(*pkg/filter.RedisKeyFilter).FilterKey")) > 0 {
+					loopHead = core.LoopHeadOf(s.Instr.Block())
+				}
+			}
+		}
+		isKeepStore := func(in ssa.Instruction) bool {
+			st, ok := in.(*ssa.Store)
+			if !ok {
+				return false
+			}
+			ia, ok := st.Addr.(*ssa.IndexAddr)
+			if !ok {
+				return false
+			}
+			if b, isB := core.ConstBool(st.Val); !isB || !b {
+				return false
+			}
+			ms, isMs := ia.X.(*ssa.MakeSlice)
+			return isMs && strings.HasSuffix(ms.Type().String(), "[]bool")
+		}
+		n := 0
+		keepBad := ""
+		var keepPos token.Pos = f.Pos()
+		type iter struct {
+			p                  *core.Path
+			rejected, accepted bool
+		}
+		var iters []iter
+		if loopHead != nil {
+			core.EnumPathsN(loopHead, 0, 100000, 1, func(p *core.Path) {
+				rej := pathAssumed(p, isKeyRule("FilterKey"), true) || pathAssumed(p, isKeyRule("FilterSlot"), true)
+				acc := pathAssumed(p, isKeyRule("FilterKey"), false) && pathAssumed(p, isKeyRule("FilterSlot"), false)
+				for _, in := range p.Instrs {
+					if isKeepStore(in) {
+						n++
+						if !acc {
+							keepBad, keepPos = "a key is kept without both the prefix rule and the slot rule having accepted it", in.Pos()
+						}
+					}
+				}
+				if p.Closed {
+					iters = append(iters, iter{p, rej, acc})
+				}
+			})
+		}
+		r.Check(keepBad == "" && n > 0, "FilterCmdKey/keep", keepPos, "%s (marking paths=%d)", keepBad, n)
+		// the same key string is given to both rules and comes from args[index]
+		var ka, sa ssa.Value
+		for _, s := range core.Sites(f, false) {
+			if s.Name == "(*pkg/filter.RedisKeyFilter).FilterKey" {
+				ka = s.Args()[0]
+			}
+			if s.Name == "(*pkg/filter.RedisKeyFilter).FilterSlot" {
+				sa = s.Args()[0]
+			}
+		}
+		r.Check(ka != nil && ka == sa, "FilterCmdKey/same-key", f.Pos(), "both key rules must judge the same key")
+		// a rejection is remembered until the loop is over, and the command passes unchanged only when
+		// nothing was rejected. Two forms: a boolean carried round the loop that every rejecting iteration
+		// sets; or a counter that exactly the accepting iterations advance, compared afterwards with the
+		// number of keys.
+		okFlag, seenFlag := false, false
+		why := "no loop-carried flag or counter records a rejection"
+		if loopHead != nil {
+			for _, in := range loopHead.Instrs {
+				ph, ok := in.(*ssa.Phi)
+				if !ok {
+					break
+				}
+				bt, isB := ph.Type().Underlying().(*types.Basic)
+				if !isB {
+					continue
+				}
+				good, nRej, nAcc := true, 0, 0
+				switch {
+				case bt.Kind() == types.Bool:
+					for _, it := range iters {
+						if !it.rejected {
+							continue
+						}
+						nRej++
+						if v, isC := core.ConstBool(it.p.NextIter(ph)); !isC || !v {
+							good = false
+						}
+					}
+					if good && nRej > 0 && unchangedReturnGuarded(f, loopHead, func(c core.Cmp, val bool) bool { return false }, ph) {
+						okFlag, seenFlag = true, true
+					}
+				case bt.Info()&types.IsInteger != 0:
+					init := false
+					for i, e := range ph.Edges {
+						if !loopHead.Dominates(loopHead.Preds[i]) && isConstInt(0)(e) {
+							init = true
+						}
+					}
+					for _, it := range iters {
+						nx := it.p.NextIter(ph)
+						switch {
+						case it.rejected:
+							nRej++
+							if nx != ssa.Value(ph) {
+								good = false
+							}
+						case it.accepted:
+							nAcc++
+							b, isBin := nx.(*ssa.BinOp)
+							if !isBin || b.Op != token.ADD || b.X != ssa.Value(ph) || !isConstInt(1)(b.Y) {
+								good = false
+							}
+						default:
+							good = false
+						}
+					}
+					if os.Getenv("GUNYU_DEBUG") != "" {
+						fmt.Println("DEBUG counter", ph.Name(), "good", good, "init", init, "rej", nRej, "acc", nAcc, "iters", len(iters), "ranged", rangedSlice(loopHead))
+						for _, it := range iters {
+							fmt.Println("   iter rej", it.rejected, "acc", it.accepted, "next", it.p.NextIter(ph))
+						}
+					}
+					if good && init && nRej > 0 && nAcc > 0 {
+						// the loop visits every key: it ranges over a slice, and the counter is compared with its length
+						ranged := rangedSlice(loopHead)
+						if ranged != nil && unchangedReturnGuarded(f, loopHead, func(c core.Cmp, val bool) bool {
+							x, y := core.Unwrap(c.X), core.Unwrap(c.Y)
+							isLen := func(v ssa.Value) bool {
+								call, ok := v.(*ssa.Call)
+								return ok && isBuiltin(call, "len") && call.Call.Args[0] == ranged
+							}
+							return c.Op == token.EQL && ((x == ssa.Value(ph) && isLen(y)) || (y == ssa.Value(ph) && isLen(x)))
+						}, nil) {
+							okFlag, seenFlag = true, true
+						} else {
+							why = "the counter of accepted keys is not compared with the number of keys before the command passes unchanged"
+						}
+					}
+				}
+			}
+		}
+		_ = why
+		r.Check(okFlag && seenFlag, "FilterCmdKey/filtered-flag", f.Pos(), "a rejected key must mark the command as filtered (otherwise the command is forwarded unchanged)")
+	}
 }
